@@ -50,6 +50,9 @@ def histories(draw):
     prog = draw(S.programs(p))
     e2e.add_support_methods(prog)
     plan, history, stats = e2e.plan_history(draw, prog, draw(st.integers(8, 30)))
+    if draw(st.booleans()):
+        prog["holder"] = e2e.plan_holder(draw)       # a callback stored by an opaque: released exactly once, when its holder is destroyed
+        stats["stored_callback"] = 1
     return prog, plan, history, stats
 
 
@@ -79,6 +82,8 @@ def evaluate_history(art, work, prog, plan, history):
         fails.append(("values", "history observed `%s`, expected `%s`" % bad))
     if not fails:
         fails += e2e.callback_fails(prog, plan, lines, history=history)
+    if not fails and prog.get("holder"):
+        fails += e2e.holder_fails(prog["holder"], lines)
     return fails, res
 
 
